@@ -252,21 +252,34 @@ def run_case(c):
             k.cmp('MPO.as_matrix', 'sparse_equals_dense', spd, de, _nrm(ref), 'as_matrix(sparse_format=True) vs as_matrix()', )
             k.cmp('MPO.as_matrix', 'dense', de, ref, _nrm(ref), 'as_matrix() vs independent contraction')
             k.cmp('MPO.as_matrix', 'sparse', spd, ref, _nrm(ref), 'as_matrix(sparse_format=True) vs independent contraction')
+        bad = oracle.wf_mpo(a)
+        if bad:
+            k.fail('MPO.as_matrix', 'args_unchanged', 'the MPO is malformed after the sparse / dense conversions: ' + '; '.join(bad))
     elif kind == 'dense':
         if var == 'mps':
             s = k.mps(*k.sector())
             objs = [s]
+            ref = oracle.mps_dense(s.A)
             good, v = k.call('MPS.as_vector', s.as_vector)
             if good:
-                ref = oracle.mps_dense(s.A)
                 k.cmp('MPS.as_vector', 'dense', v, ref, _nrm(ref), 'as_vector()')
+                bad = oracle.wf_mps(s)
+                if bad:
+                    k.fail('MPS.as_vector', 'args_unchanged', 'the MPS is malformed after as_vector(): ' + '; '.join(bad))
         else:
             a = k.mpo(*k.sector(True))
             objs = [a]
+            ref = oracle.mpo_dense(a.A)             # before the call: the call must not change its operand either
             good, m = k.call('MPO.as_matrix', a.as_matrix)
             if good:
-                ref = oracle.mpo_dense(a.A)
                 k.cmp('MPO.as_matrix', 'dense', m, ref, _nrm(ref), 'as_matrix()')
+                bad = oracle.wf_mpo(a)
+                if bad:
+                    k.fail('MPO.as_matrix', 'args_unchanged', 'the MPO is malformed after as_matrix(): ' + '; '.join(bad))
+                else:
+                    good2, m2 = k.call('MPO.as_matrix', a.as_matrix)
+                    if good2:
+                        k.cmp('MPO.as_matrix', 'dense', m2, ref, _nrm(ref), 'second as_matrix() on the same object')
     elif kind == 'from_vector':
         d = c['d']
         n = d ** L
